@@ -21,6 +21,7 @@ import CtyModel.Function
 import CtyModel.Gocty
 import CtyModel.SetImpl
 import CtyModel.Refine
+import CtyModel.SetRules
 namespace CtyModel
 namespace Stdlib
 
@@ -113,11 +114,19 @@ def lengthInt (v : Value) : Res Nat :=
 
 /-! ### `setRules.Less` and the iteration order of a set -/
 
-/-- `setRules{ety}.Less(a, b)` on mark-free member payloads.  `RawEquals` is
-structural identity here: the members of one set that a sort compares are never
-`Equals`-equal, and an element is never compared with itself. -/
+/-- `v1.RawEquals(v2)`, the first test of `setRules.Less` (the RawEquals model of
+SetRules.lean; structural identity is its reflexive case, kept as a shortcut).
+Two members of one set CAN be RawEquals: two numbers that are `Equals`-equal by their
+shortest decimal text but hash into different buckets (C03 hash-coherence finding) —
+then `Less` answers false both ways and the stable sort keeps the bucket order. -/
+def setRawEq (ety : Ty) (a b : Payload) : Bool :=
+  a == b || (match Value.rawEqP ety a ety b with
+    | .ok r => r
+    | _ => false)
+
+/-- `setRules{ety}.Less(a, b)` on mark-free member payloads. -/
 def setLess (E : Env) (ety : Ty) (a b : Payload) : Bool :=
-  if a == b then false
+  if setRawEq ety a b then false
   else if b.isNull && !a.isNull then true
   else if a.isNull then false
   else if a.isKnown && !b.isKnown then true
